@@ -286,6 +286,11 @@ def handleR (op : String) : Option (R String) :=
       match raw.mapM (fun (p : Nat × Bool) => (SkipWhat.ofNat? p.1).map (fun w => (w, p.2))) with
       | none => failure
       | some cmds => pure (fmt (decide (sisValid N lin circ d hm)) (pfCase hasExo N lin circ d nx ny hm cmds steps (fun _ => true) (fun _ _ => true)))
+  | "b_likq" => some do
+      let kind ← nat; let reduced ← bool; let sub ← nat; let m1 ← nat; let m2 ← nat; let how ← nat; let K ← nat; done
+      match LikQHow.ofNat? how with
+      | none => failure
+      | some h => if kind > 3 then failure else pure (fmt (decide (likqValid kind sub m1 m2 K)) (likqCase kind reduced sub m1 m2 h K))
   | "b_defaults" => some do
       let which ← nat; let fn ← nat; let sr ← nat; let N ← nat; done
       pure (fmt (decide (defaultsValid which fn sr)) (defaultsCase which fn sr N))
